@@ -98,3 +98,89 @@ def make_td_judge(pid):
         v.nontrivial = False
         return v.bucket("cli-unspecified")
     return judge
+
+
+# ---------------------------------------------------------------------------------------------------------------------------------
+# Transactions through the command line: `hash transaction F` prints Keccak-256 of the unsigned payload, so a library judge that
+# compares the payload with the reference can judge the command's output through an object that is "equal" to a payload exactly
+# when the payload hashes to what was printed.
+
+class HashOf(str):
+    """Stands for 'the byte string whose Keccak-256 is this digest' in comparisons with a hex payload."""
+    def __eq__(self, other):
+        from .ref import keccak
+        try:
+            return keccak.keccak256(bytes.fromhex(other)).hex() == str.__str__(self)
+        except (TypeError, ValueError):
+            return False
+
+    def __ne__(self, other):
+        return not self.__eq__(other)
+
+    __hash__ = str.__hash__
+
+
+class Anything(str):
+    """Equal to every payload: used where a command's output does not show the payload (only accept / reject is judged)."""
+    def __eq__(self, other):
+        return True
+
+    def __ne__(self, other):
+        return False
+
+    __hash__ = str.__hash__
+
+
+TX_COMMANDS = ("hash transaction", "sign transaction", "sign transaction --signature-only")
+
+
+def tx_cli_cases(cases, judges=("num", "bytes"), every=9, limit=300, part=0, parts=1, profiles=("release", "dev")):
+    n = k = 0
+    for c in cases:
+        if c["j"] not in judges or len(c["steps"]) != 1 or (c["steps"][0].get("lib") or {}).get("op") != "tx.process":
+            continue
+        n += 1
+        if n % every or (n // every) % parts != part:
+            continue
+        text = c["steps"][0]["lib"]["json"]
+        try:
+            files = {"tx.json": text.encode("utf-8").hex()}
+        except UnicodeEncodeError:
+            continue
+        env = {"MNEMONIC": WORDS}
+        steps = [{"cli": {"argv": ["hash", "transaction", "@FILE:tx.json@"], "files": files}},
+                 {"cli": {"argv": ["sign", "transaction", "@FILE:tx.json@", "--allow-missing-relay-protection"], "files": files, "env": env}},
+                 {"cli": {"argv": ["sign", "transaction", "--signature-only", "--allow-missing-relay-protection", "@FILE:tx.json@"], "files": files, "env": env}}]
+        x = dict(c.get("x") or {})
+        x["_base"] = c["j"]
+        yield {"j": "cli-tx", "profile": profiles[k % len(profiles)], "steps": steps, "x": x}
+        k += 1
+        if k >= max(1, limit // parts):
+            return
+
+
+def make_tx_judge(pid, base_judges):
+    def judge(case, obs):
+        from .run.core import V, abnormal
+        if any(abnormal(o) or "exit" not in o for o in obs):
+            return V()
+        base = base_judges[case["x"]["_base"]]
+        out = V()
+        for name, o in zip(TX_COMMANDS, obs):
+            if o["exit"] == 0:
+                s = o["stdout"].strip()
+                shown = HashOf(s[2:]) if name == "hash transaction" and len(s) == 66 else Anything()
+                fake = {"ok": {"unsigned": shown, "kind": "?"}}
+            else:
+                if o["stdout"].strip():
+                    return out.bad("%s/cli/%s/output-with-error" % (pid, name.replace(" ", "-")), "`%s` failed but printed %r" % (name, o["stdout"].strip()[:80]))
+                fake = {"err": o["stderr"][-200:]}
+            v = base(case, [fake])
+            for sig, msg in v.viol:
+                # the signature stays the input class (a known finding is the same finding through whichever command it is seen)
+                out.bad(sig, "through `%s`: %s" % (name, msg))
+            if name == "hash transaction":
+                out.buckets.extend(v.buckets)
+                out.nontrivial = v.nontrivial
+        return out.bucket("cli-tx-commands-judged")
+    return judge
